@@ -726,10 +726,27 @@ func analyseDeterminism(prop string, hs *HarnessSpec, res *interp.ExploreResult,
 		if err == nil && nres[pth] != nil {
 			seen = len(nres[pth].Dist)
 		}
+		how := "in 500 repetitions"
+		if seen <= 1 {
+			// maybe the output only varies from process to process
+			outs := map[string]bool{}
+			for r := 0; r < 12; r++ {
+				nres, err := nb.runRepeat([]string{pth}, rf.InCmd, false, 60*time.Second, -1)
+				if err == nil && nres[pth] != nil {
+					for o := range nres[pth].Dist {
+						outs[o] = true
+					}
+				}
+			}
+			if len(outs) > seen {
+				seen = len(outs)
+				how = "across 12 processes"
+			}
+		}
 		if seen > 1 {
 			violations++
 			fmt.Printf("VIOLATION property=%s replay=%s\n", prop, pth)
-			fmt.Printf("  harness=%s kind=nondeterminism: class %s: %s (natively: %d different outputs in 500 repetitions)\n", hs.Name, c, what, seen)
+			fmt.Printf("  harness=%s kind=nondeterminism: class %s: %s (natively: %d different outputs %s)\n", hs.Name, c, what, seen, how)
 		} else {
 			fmt.Printf("UNCONFIRMED property=%s replay=%s engine=nondeterminism native=%d distinct outputs in 500 repetitions\n", prop, pth, seen)
 			problems = append(problems, fmt.Sprintf("%s: nondeterminism in class %s not observed natively", hs.Name, c))
